@@ -22,6 +22,10 @@ pub struct SchedCase {
     /// (false: compiled regexes stay cached, which is what exposes stale cache entries)
     #[serde(default)]
     pub discard: bool,
+    /// other discard policies for the shared engine: 0 = as `discard` says; 1 = (1 ms, 0);
+    /// 2 = (1 ns, Duration::MAX), "never discard" written as the largest duration; 3 = (3 ms, 1 ms)
+    #[serde(default)]
+    pub policy: u8,
 }
 
 impl Case for SchedCase {
@@ -83,6 +87,16 @@ fn regex_heavy_case(t: &mut Tape) -> FullCase {
         }
     }
     if t.chance(1, 3) {
+        // one regex text under two spellings that differ only in match-case (and in the request
+        // type they apply to)
+        let w = t.choose(&["Ads", "Banner"]);
+        base.rules.push(format!("/\\/{}Unit[0-9]+/$script,match-case", w));
+        base.rules.push(format!("/\\/{}Unit[0-9]+/$image", w));
+        for (u, ty) in [("Unit7.js", "script"), ("unit7.js", "script"), ("Unit7.png", "image"), ("unit7.png", "image")] {
+            base.reqs.push(ReqSpec { url: format!("https://cdn.example.com/{}{}", if u.starts_with('U') { w.to_string() } else { w.to_lowercase() }, u), source: "https://site.org/".into(), rtype: ty.into() });
+        }
+    }
+    if t.chance(1, 3) {
         // generichide exceptions that depend on the query string, pages that differ only there
         base.rules.push("@@||example.com/embed?autoplay=1$generichide".into());
         base.rules.push("@@/player\\.html\\?(.*&)?ads=off/$generichide".into());
@@ -141,7 +155,7 @@ pub fn decode_sched(t: &mut Tape) -> SchedCase {
         }
         rounds.push(set);
     }
-    SchedCase { base, threads, rounds, discard: t.chance(1, 2) }
+    SchedCase { base, threads, rounds, discard: t.chance(1, 2), policy: if t.chance(1, 3) { 1 + t.pick(3) as u8 } else { 0 } }
 }
 
 /// answers of query `k` (requests first, then pages)
@@ -185,7 +199,16 @@ pub fn check_sched(c: &SchedCase, obs: &mut Obs) -> Result<(), String> {
         }
         sequential.push(a);
     }
-    let shared = Arc::new(RwLock::new(mk(&rounds[0], c.discard)));
+    let shared = Arc::new(RwLock::new({
+        let mut e = mk(&rounds[0], c.discard && c.policy == 0);
+        match c.policy {
+            1 => e.set_regex_discard_policy(RegexManagerDiscardPolicy { cleanup_interval: Duration::from_millis(1), discard_unused_time: Duration::from_nanos(0) }),
+            2 => e.set_regex_discard_policy(RegexManagerDiscardPolicy { cleanup_interval: Duration::from_nanos(1), discard_unused_time: Duration::MAX }),
+            3 => e.set_regex_discard_policy(RegexManagerDiscardPolicy { cleanup_interval: Duration::from_millis(3), discard_unused_time: Duration::from_millis(1) }),
+            _ => {}
+        }
+        e
+    }));
     let n = c.threads.len();
     let barrier = Arc::new(Barrier::new(n + 1));
     let in_flight = Arc::new(AtomicUsize::new(0));
@@ -300,7 +323,13 @@ pub fn check_sched(c: &SchedCase, obs: &mut Obs) -> Result<(), String> {
     if nrounds > 1 {
         obs.label("tag-switch-between-rounds");
     }
-    obs.label(if c.discard { "policy-discard-everything" } else { "policy-default" });
+    obs.label(match (c.policy, c.discard) {
+        (1, _) => "policy-1ms-0",
+        (2, _) => "policy-never-discard-max",
+        (3, _) => "policy-3ms-1ms",
+        (_, true) => "policy-discard-everything",
+        _ => "policy-default",
+    });
     obs.inner_labels.push(("overlapping-query-attempts", ov as u64));
     match failure {
         Some(m) => Err(m),
@@ -368,7 +397,7 @@ fn sync_bin() -> String {
 }
 
 pub fn check(ctx: &mut Ctx) {
-    ctx.rule = "schedules: one shared Engine in the build without unsync-regex-caching (regex-heavy list + cosmetic rules + resources, 1 case in 3 with full-regex rules the regex crate rejects, 1 in 3 with query-dependent $generichide exceptions and pages that differ only in their query, 1 case in 3 with 40-299 extra same-shape tagged regex rules in three buckets; half of the cases with discard policy (1 ns, 0) so every query discards and recompiles, half with the default policy so compiled regexes stay cached across tag switches), 2-16 persistent threads x 20-200 mixed queries (network, csp, cosmetic, class/id) in generated per-thread orders with generated spin/yield points, in 1-5 rounds separated by barriers; between rounds the controller switches the enabled tags through a write lock (re-allocating the same-shape tagged regex rules); request hosts contain the rules' host text at several label-aligned offsets; every answer is compared with the answer of a fresh single-thread engine for that round's tags, computed under the default AND the discard-everything policy (they must agree); a watchdog reports a deadlock only if no query completes anywhere for 60 s; a panic in any thread (incl. lock poisoning) is a failure. transcript: the same seeded stream of cases is answered and serialized by the single-thread and the thread-safe build; the digests must be equal. Non-trivial schedule = at least two threads were inside (or waiting to enter) a query at the same time.".into();
+    ctx.rule = "schedules: one shared Engine in the build without unsync-regex-caching (regex-heavy list + cosmetic rules + resources, 1 case in 3 with full-regex rules the regex crate rejects, 1 in 3 with query-dependent $generichide exceptions and pages that differ only in their query, 1 case in 3 with 40-299 extra same-shape tagged regex rules in three buckets; the shared engine's discard policy is (1 ns, 0) - every query discards and recompiles -, the default - compiled regexes stay cached across tag switches -, or, 1 case in 3, one of (1 ms, 0), (3 ms, 1 ms), (1 ns, Duration::MAX); 1 case in 3 holds two full-regex rules with the same text that differ only in match-case), 2-16 persistent threads x 20-200 mixed queries (network, csp, cosmetic, class/id) in generated per-thread orders with generated spin/yield points, in 1-5 rounds separated by barriers; between rounds the controller switches the enabled tags through a write lock (re-allocating the same-shape tagged regex rules); request hosts contain the rules' host text at several label-aligned offsets; every answer is compared with the answer of a fresh single-thread engine for that round's tags, computed under the default AND the discard-everything policy (they must agree); a watchdog reports a deadlock only if no query completes anywhere for 60 s; a panic in any thread (incl. lock poisoning) is a failure. transcript: the same seeded stream of cases is answered and serialized by the single-thread and the thread-safe build; the digests must be equal. Non-trivial schedule = at least two threads were inside (or waiting to enter) a query at the same time.".into();
     ctx.assumptions = vec![
         "real threads sample interleavings; with the whole query under one mutex the schedule space collapses to query orderings, which are what is generated".into(),
         "deadlock is detected by absence of progress, never by a time budget".into(),
